@@ -85,6 +85,10 @@ pub fn token_lookalike_cases() -> Vec<(Vec<String>, u32)> {
         v.push((vec![lit.repeat(2), m.repeat(2), "y".to_string()], f));
         v.push((vec![format!("{}{}", lit.repeat(2), m.repeat(2))], f));
         v.push((vec![format!("{m}{lit}{m}{lit}"), format!("{m}{m}{m}{m}")], f));
+        // the same runs behind different, otherwise indistinguishable prefixes
+        v.push((vec![format!("x{}", lit.repeat(2)), format!("y{}", m.repeat(2))], f));
+        v.push((vec![format!("x{}z", lit.repeat(3)), format!("y{}z", m.repeat(3))], f));
+        v.push((vec![format!("x{}", lit.repeat(2)), format!("y{}", m.repeat(2)), format!("q{}", m.repeat(2))], f));
     }
     v
 }
@@ -235,7 +239,8 @@ pub fn alphabet(name: &str) -> Vec<String> {
         ],
         "case" => vec![
             "a", "A", "b", "B", "İ", "ẞ", "ß", "σ", "ς", "Σ", "\u{212a}", "k", "K", "ǅ", "ǆ", "Ǆ", "Ꭰ", "ꭰ", "ı", "I", "i", "ſ", "s", "S", "é", "É",
-            "\u{1c89}", "\u{1c8a}", "µ", "μ", "Μ", "\u{2126}", "ω", "Ω", "\u{1e9e}", "ᾳ", "ᾼ", "ǰ", "ŉ", "ﬁ", "1", "-", "中",
+            "\u{1c89}", "\u{1c8a}", "µ", "μ", "Μ", "\u{2126}", "ω", "Ω", "\u{1e9e}", "ᾳ", "ᾼ", "ǰ", "ŉ", "ﬁ", "1", "-", "中", "\u{307}", "I\u{307}", "i\u{307}",
+            "\u{a7cb}", "\u{264}", "\u{a7dc}", "\u{19b}",
         ],
         "graph" => vec![
             "a", "e", "\u{301}", "\u{308}", "\u{200d}", "👩", "💻", "🇩", "🇪", "🇺", "\u{1100}", "\u{1161}", "\u{11a8}", "\u{600}", "1", "\\",
